@@ -263,8 +263,13 @@ def avg_ll(sc_params, x):
 
 
 def oracle_monotone(sc, steps=4):
-    """trajectory monotonicity while counts and variances stay off their floors"""
+    """trajectory monotonicity while counts and variances stay off their floors; with sc["chunks"] training runs on a Dask
+    array with those row chunks (the likelihood is always evaluated on the whole data set, independently)"""
+    import dask.array as da
+
     x = np.asarray(sc["x"], dtype=float)
+    xin = da.from_array(x, chunks=(tuple(sc["chunks"]), x.shape[1])) if sc.get("chunks") else x
+    how = f" (Dask, row chunks {tuple(sc['chunks'])})" if sc.get("chunks") else ""
     cur = {k: np.asarray(sc[k], dtype=float) for k in ("w", "m", "v")}
     for it in range(steps):
         s = dict(sc)
@@ -274,14 +279,14 @@ def oracle_monotone(sc, steps=4):
         if np.any(np.asarray(st.n) <= 10 * sc["thr"]):
             return None
         before = avg_ll(params_of(g), x)
-        res = core.impl(lambda: params_of(g.fit(x)))
+        res = core.impl(lambda: params_of(g.fit(xin)))
         if isinstance(res, core.ImplError):
             return {"sig": "fit-raises", "what": repr(res)}
         if not all(np.all(np.isfinite(res[k])) for k in res) or np.any(res["v"] <= 10 * sc.get("floor", gen.EPS)):
             return None  # a floor is active (or C13's business)
         after = avg_ll(res, x)
         if after < before - 1e-9 * max(1.0, abs(before)):
-            return {"sig": "ml-iteration-decreases-likelihood", "what": f"iteration {it + 1} with switches um={sc['um']} uv={sc['uv']} uw={sc['uw']}: average log-likelihood {before} -> {after}",
+            return {"sig": "ml-iteration-decreases-likelihood", "what": f"iteration {it + 1}{how} with switches um={sc['um']} uv={sc['uv']} uw={sc['uw']}: average log-likelihood {before} -> {after}",
                     "iteration": it + 1}
         cur = res
     return None
@@ -310,11 +315,12 @@ def search(ctx):
     fails = []
     for i in range(ctx.budget(32, 320)):
         sc = train_scenario(ctx, i)
-        ctx.count("search:monotone")
-        ctx.case(["mono", core.tolist(sc["x"]), i % 8], nontrivial=True)
+        sc["chunks"] = [int(c) for c in gen.random_composition(ctx.rng, len(sc["x"]))] if ctx.rng.random() < 0.5 else None
+        ctx.count("search:monotone" + (f":dask:{len(sc['chunks'])}-chunks" if sc["chunks"] else ":numpy"))
+        ctx.case(["mono", core.tolist(sc["x"]), i % 8, sc["chunks"]], nontrivial=True)
         f = oracle_monotone(sc)
         if f:
-            f["input"] = {k: sc[k] for k in ("w", "m", "v", "x", "um", "uv", "uw", "thr", "floor")}
+            f["input"] = {k: sc[k] for k in ("w", "m", "v", "x", "um", "uv", "uw", "thr", "floor", "chunks")}
             f["oracle"] = "monotone"
             fails.append(f)
             break
